@@ -87,6 +87,29 @@ def says_shared(r):
     return False
 
 
+def simplify_ptr(e):
+    """`b.add(offset_from(p, b))` (and the integer spelling `b.add((p as usize) - (b as usize))`) is `p`"""
+    if not isinstance(e, tuple) or not e:
+        return e
+    e = tuple(simplify_ptr(x) if isinstance(x, tuple) else x for x in e)
+    if e[0] == "call" and e[1].rsplit("::", 1)[-1] == "add" and len(e[2]) == 2:
+        base, off = uncast_ptr(e[2][0]), e[2][1]
+        while isinstance(off, tuple) and off and off[0] == "cast":
+            off = off[2]
+        if isinstance(off, tuple) and off and off[0] == "call" and off[1].rsplit("::", 1)[-1] in ("offset_from", "offset_from_unsigned", "byte_offset_from") and len(off[2]) == 2 \
+                and uncast_ptr(off[2][1]) == base:
+            return off[2][0]
+        if isinstance(off, tuple) and off and off[0] == "bin" and off[1] == "Sub":
+            a_, b_ = off[2], off[3]
+            while isinstance(a_, tuple) and a_ and a_[0] == "cast":
+                a_ = a_[2]
+            while isinstance(b_, tuple) and b_ and b_[0] == "cast":
+                b_ = b_[2]
+            if uncast_ptr(b_) == base:
+                return a_
+    return e
+
+
 def uncast_ptr(e):
     while isinstance(e, tuple) and e and e[0] == "cast" and e[1] in ("PtrToPtr", "IntToInt"):
         e = e[2]
@@ -416,8 +439,25 @@ def run(facts):
             loc = (bi, len(blk["stmts"]))
             for (params, acc, what) in ((cpp, pp, "ptr"), (clp, lp, "len")):
                 for i in params:
+                    if isinstance(i, tuple):
+                        # the callee's handle pointer is an expression over its parameters (`buf.add(off)`): with this call's arguments it must
+                        # come back to one of our own parameters (`buf + (ptr - buf)` is `ptr`) or stay such an expression
+                        from .flow import subst_params
+                        e_ = simplify_ptr(canon(subst_params(i[1], [canon(eb.operand(x, loc)) for x in t["args"]])))
+                        e_ = uncast_ptr(e_)
+                        if e_[0] == "param":
+                            acc.add(e_[1])
+                        elif all(y[0] != "call" or y[1].rsplit("::", 1)[-1] in ("add", "offset_from", "cast", "sub") for y in walk(e_) if isinstance(y, tuple) and y and y[0] == "call"):
+                            acc.add(("expr", e_))
+                        else:
+                            probs.append("%s passes %s as the %s of the handle built by %s" % (b.id.rsplit("::", 1)[-1], fmt_expr(e_)[:50], what, cb.id.rsplit("::", 1)[-1]))
+                        continue
                     if i - 1 < len(t["args"]):
                         a = uncast_ptr(canon(eb.operand(t["args"][i - 1], loc)))
+                        if what == "ptr" and a[0] == "call" and a[1].rsplit("::", 1)[-1] == "add" and len(a[2]) == 2 and all(
+                                y[0] in ("param", "call", "cast") for y in walk(a) if isinstance(y, tuple) and y) and any(y[0] == "param" for y in walk(a)):
+                            acc.add(("expr", a))
+                            continue
                         if a[0] == "param":
                             acc.add(a[1])
                         elif what == "ptr" and a[0] == "call" and a[1] in ("core::slice::from_raw_parts",):
@@ -442,6 +482,10 @@ def run(facts):
         pp, lp, probs = view_params(cb)
         key = "%s.clone|view roles" % name
         # slot signature: fn(data, ptr, len)
+        ex_ = [x for x in pp if isinstance(x, tuple)]
+        pp = {x for x in pp if not isinstance(x, tuple)}
+        for x in ex_:
+            probs.append("a handle's ptr is %s, which does not come back to the slot's `ptr`" % fmt_expr(x[1])[:60])
         if pp - {2}:
             probs.append("parameter(s) %s of the slot function end up as a handle's ptr (only `ptr` may)" % sorted(pp - {2}))
         if lp - {3}:
